@@ -160,7 +160,7 @@ def check_stream(acc, opens, case, frags, normalize, judge_source=True, cuts=Non
 
 SRC_CHOICES = [None, None, 'a.js', 'lib/b.js', '/abs/c.js', NotImplemented]
 TEXTS = ['a', 'foo', ';', '{', '}', ' ', '  ', '\n', '\r\n', '\r', 'x\n', 'x\ny', '"a\\\nb"', '/*c\n d*/', ',', '(',
-         ')', 'var', 'function', '\n  ', 'a\r\nb\rc', '', 'a\x0cb', '"x\x0by"', u'/*\x85*/ ', 'p\x1cq\nr\x0c']
+         ')', 'var', 'function', '\n  ', 'a\r\nb\rc', '', 'a\x0cb', '"x\x0by"', u'/*\x85*/ ', 'p\x1cq\nr\x0c', u'"\U0001f600"', u'\U00020000x', u'a\U0001d4b3\nb\U0001f600']
 
 
 @st.composite
